@@ -1,6 +1,7 @@
 package props
 
 import (
+	"regexp"
 	"encoding/json"
 	"fmt"
 	"os"
@@ -40,6 +41,11 @@ type Finding struct {
 	What       string `json:"what"`
 	Commit     string `json:"commit,omitempty"`
 	Input      string `json:"input,omitempty"`
+	// Instances, when given, is a regular expression: the finding covers
+	// only the instances (the part of the obligation name after " @") that
+	// match it; a failure of the same obligation for another instance is a
+	// violation.
+	Instances string `json:"instances,omitempty"`
 }
 
 func loadFindings(path string) []Finding {
@@ -62,6 +68,16 @@ func matchFinding(fs []Finding, prop string, o *vc.Outcome) *Finding {
 			continue
 		}
 		if o.Name == f.Obligation || strings.HasPrefix(o.Name, f.Obligation+" @") {
+			if f.Instances != "" {
+				inst := ""
+				if i := strings.Index(o.Name, " @"); i >= 0 {
+					inst = o.Name[i+2:]
+				}
+				re, err := regexp.Compile(f.Instances)
+				if err != nil || !re.MatchString(inst) {
+					continue
+				}
+			}
 			return f
 		}
 	}
@@ -155,6 +171,9 @@ func Run(P *sx.Program, id, tier string, seed int64, verifDir string, verbose bo
 	groups := map[string]*grp{}
 	var gorder []string
 	for _, o := range rep.Failed() {
+		if os.Getenv("GOCV_LISTFAILED") != "" {
+			fmt.Printf("  failed: [%s] %s\n", o.Status, o.Name)
+		}
 		if f := matchFinding(findings, id, o); f != nil {
 			if !knownSeen[f.Obligation] {
 				knownSeen[f.Obligation] = true
